@@ -44,7 +44,7 @@ def doAssign (s : St) (k : Nat) (e : RNode) : St × String :=
     | some (s', v) => (s', s!"ok {v}")
     | none => (s, exc .unknown_handle)
 
-def step (s : St) (ws : List String) : St × String :=
+def stepInt (s : St) (ws : List String) : St × String :=
   match ws with
   | ["cfg", w, p, o] =>
     match w.toNat?, p.toNat?, o.toNat? with
@@ -201,5 +201,160 @@ def step (s : St) (ws : List String) : St × String :=
       | _, _, _ => (s, "bad-op")
     else (s, "bad-op")
   | _ => (s, "bad-op")
+
+/-! ### binary64 tapes (C02 / C13 law-free tie)
+
+The same generic definitions of `AdeptModel/Tape.lean` instantiated at `Float` (IEEE binary64; `+` and `*` are the machine
+operations, no fused multiply-add).  The tape is given explicitly (the check takes it from the implementation's own dump);
+every number crosses the protocol as the 16 hex digits of its bit pattern, any NaN as `nan`.
+
+    ftape <W> <maxGrad> | lhs:BITS*idx,BITS*idx | lhs: | …      the recording               -> ok <statements> <operations>
+    findep i …   /   fdep i …                                    gradient indices            -> ok <count>
+    fjac <auto|fwd|rev> <threads> <dO> <iO> <ncells> [ib …]      raw-pointer Jacobian        -> P BITS …
+          threads = 1: serial routine; > 1 and more than one block: OpenMP routine, blocks executed in the order given
+          (default 0,1,2,…); cells pre-filled with -777
+    fsweep <fwd|rev> idx:BITS … | q …                            compute_tangent_linear / compute_adjoint on the seeded
+                                                                 vector, gradients read at q … -> g BITS …
+-/
+
+instance : Zero Float := ⟨Float.ofBits 0⟩
+instance : One Float := ⟨Float.ofBits 0x3FF0000000000000⟩
+
+/-- `a != 0.0` of the C++ on doubles (`-0.0` is zero, a NaN is not) -/
+def fnz (a : Float) : Bool := a != Float.ofBits 0
+
+structure FSt where
+  W : Nat := 4
+  maxGrad : Nat := 0
+  tape : List (Stmt Float) := []
+  indep : List Nat := []
+  dep : List Nat := []
+
+structure XSt where
+  base : St := {}
+  f : FSt := {}
+
+def hexDigit? (c : Char) : Option Nat :=
+  if '0' ≤ c ∧ c ≤ '9' then some (c.toNat - '0'.toNat)
+  else if 'a' ≤ c ∧ c ≤ 'f' then some (c.toNat - 'a'.toNat + 10)
+  else none
+
+/-- exactly 16 lower-case hex digits, or `nan` -/
+def parseBits (s : String) : Option Float :=
+  if s == "nan" then some (Float.ofBits 0x7FF8000000000000) else
+  if s.length ≠ 16 then none else
+  (s.toList.foldl (fun acc c => match acc, hexDigit? c with
+    | some a, some d => some (a * 16 + d)
+    | _, _ => none) (some 0)).map fun n => Float.ofBits n.toUInt64
+
+def hexChar (d : Nat) : Char := if d < 10 then Char.ofNat ('0'.toNat + d) else Char.ofNat ('a'.toNat + d - 10)
+
+def showBits (x : Float) : String :=
+  if x.isNaN then "nan" else
+  let n := x.toBits.toNat
+  String.ofList ((List.range 16).map fun k => hexChar ((n >>> (4 * (15 - k))) % 16))
+
+def showFloats (xs : List Float) : String := String.intercalate " " (xs.map showBits)
+
+/-- `BITS*idx` -/
+def parseFOp (s : String) : Option (Float × Nat) :=
+  match s.splitOn "*" with
+  | [m, i] => match parseBits m, i.toNat? with
+    | some m, some i => some (m, i)
+    | _, _ => none
+  | _ => none
+
+/-- `lhs:op,op,…` (`lhs:` = no operation) -/
+def parseFStmt (s : String) : Option (Stmt Float) :=
+  match s.splitOn ":" with
+  | [l, r] => match l.toNat? with
+    | none => none
+    | some lhs =>
+      if r.isEmpty then some ⟨lhs, []⟩
+      else ((r.splitOn ",").foldr (fun o acc => match parseFOp o, acc with
+        | some p, some ps => some (p :: ps)
+        | _, _ => none) (some [])).map fun ops => ⟨lhs, ops⟩
+  | _ => none
+
+def parseNats (ws : List String) : Option (List Nat) :=
+  ws.foldr (fun w acc => match w.toNat?, acc with
+    | some n, some ns => some (n :: ns)
+    | _, _ => none) (some [])
+
+def fjac (f : FSt) (mode : JMode) (threads : Nat) (depOff indepOff : Int) (ncells : Nat) (sched : List Nat) :
+    Option (List Float) :=
+  if f.indep.isEmpty || f.dep.isEmpty then none else
+  let n := f.indep.length
+  let m := f.dep.length
+  let dO : Nat := if depOff ≤ 0 then n else depOff.toNat
+  let iO : Nat := if indepOff ≤ 0 then m else indepOff.toNat
+  let c : JacCfg := { W := f.W, maxGrad := f.maxGrad, depOff := dO, indepOff := iO }
+  let out : List Float := List.replicate ncells (Float.ofInt (-777))
+  let forward := match mode with | .auto => chooseForward n m | .fwd => true | .rev => false
+  let count := if forward then n else m
+  let nb := (count + f.W - 1) / f.W
+  let sched := if sched.isEmpty then List.range nb else sched
+  if forward then
+    if useOmp true (threads == 1) n f.W threads then some (jacFwdOmp f.tape c f.indep f.dep sched out)
+    else some (jacFwdSerial f.tape c f.indep f.dep out)
+  else
+    if useOmp true (threads == 1) m f.W threads then some (jacRevOmpB fnz f.tape c f.indep f.dep sched out)
+    else some (jacRevSerialB fnz f.tape c f.indep f.dep out)
+
+def stepF (f : FSt) (ws : List String) : FSt × String :=
+  match ws with
+  | "ftape" :: w :: mg :: rest =>
+    match w.toNat?, mg.toNat? with
+    | some w, some mg =>
+      if w = 0 then (f, "bad-op") else
+      let toks := rest.filter (· ≠ "|")
+      match toks.foldr (fun s acc => match parseFStmt s, acc with
+          | some st, some sts => some (st :: sts)
+          | _, _ => none) (some []) with
+      | some t => ({ f with W := w, maxGrad := mg, tape := t, indep := [], dep := [] },
+          s!"ok {t.length + 1} {(t.map (·.ops.length)).sum}")
+      | none => (f, "bad-op")
+    | _, _ => (f, "bad-op")
+  | "findep" :: rest => match parseNats rest with
+    | some l => ({ f with indep := l }, s!"ok {l.length}")
+    | none => (f, "bad-op")
+  | "fdep" :: rest => match parseNats rest with
+    | some l => ({ f with dep := l }, s!"ok {l.length}")
+    | none => (f, "bad-op")
+  | "fjac" :: m :: th :: dO :: iO :: nc :: rest =>
+    match parseMode m, th.toNat?, dO.toInt?, iO.toInt?, nc.toNat?, parseNats rest with
+    | some m, some th, some dO, some iO, some nc, some sched =>
+      if th = 0 then (f, "bad-op") else
+      match fjac f m th dO iO nc sched with
+      | some xs => (f, "P " ++ showFloats xs)
+      | none => (f, "EXC dependents_or_independents_not_identified")
+    | _, _, _, _, _, _ => (f, "bad-op")
+  | "fsweep" :: dir :: rest =>
+    let seeds := rest.takeWhile (· ≠ "|")
+    let qs := (rest.dropWhile (· ≠ "|")).drop 1
+    let g0 : Option (List Float) := seeds.foldl (fun acc s => match acc, s.splitOn ":" with
+      | some g, [i, v] => match i.toNat?, parseBits v with
+        | some i, some v => some (g.set i v)
+        | _, _ => none
+      | _, _ => none) (some (List.replicate f.maxGrad (0 : Float)))
+    match g0, parseNats qs with
+    | some g, some qs =>
+      if dir == "fwd" then (f, "g " ++ showFloats (qs.map (rd (fwd f.tape g))))
+      else if dir == "rev" then (f, "g " ++ showFloats (qs.map (rd (revZ fnz f.tape g))))
+      else (f, "bad-op")
+    | _, _ => (f, "bad-op")
+  | _ => (f, "bad-op")
+
+/-- the family `tape`: the integer protocol (`stepInt`) and the binary64 operations (`stepF`) side by side -/
+def step (s : XSt) (ws : List String) : XSt × String :=
+  match ws with
+  | c :: _ =>
+    if c == "ftape" || c == "findep" || c == "fdep" || c == "fjac" || c == "fsweep" then
+      let (f, out) := stepF s.f ws
+      ({ s with f := f }, out)
+    else
+      let (b, out) := stepInt s.base ws
+      ({ s with base := b }, out)
+  | [] => (s, "bad-op")
 
 end TapeDrv
